@@ -14,14 +14,15 @@ C09 = {"clean-strand-not-left-alone", "not-sorted-unique", "candidate-fails-chec
 C10 = {"termination-bound", "raises", "malformed-result", "lookup-bound"}
 
 
-def run_repair(acc, start, dna_digits, k, vt, indel, heap):
+def run_repair(acc, start, dna_digits, k, vt, indel, heap, log=False):
     s = impl.dna(dna_digits)
     kw = dict(has_indel=bool(indel))
     if vt:
         kw["vt_check"] = impl.dna(vt)
     kw["heap_size"] = 1e9 if heap == -1 else heap
-    r = impl.call(dsw.repair_dna, s, acc, start, k, _budget=len(s) + 1, _alarm=60, **kw)
-    o = {"out": cf.outcome(r), "cands": [], "det": 0, "flag": False, "count": 0, "visited": 0, "ticks": r["ticks"], "shape": False}
+    r = impl.call(dsw.repair_dna, s, acc, start, k, _budget=len(s) + 1, _alarm=60, _log=log, **kw)
+    o = {"out": cf.outcome(r), "cands": [], "det": 0, "flag": False, "count": 0, "visited": 0, "ticks": r["ticks"], "shape": False,
+         "tl": [[int(sc["location"]), int(sc["vertex"]), int(sc["seglen"])] for site, sc in (r.get("log") or []) if site == "rep_scan"]}
     if r["out"] == "ok":
         v = r["value"]
         try:
@@ -68,6 +69,7 @@ def case_of(gidx, rec, o, w=None, es=None):
     c = {"g": gidx, "start": rec["start"], "dna": rec["dna"], "vt": rec["vt"], "indel": bool(rec["indel"]), "heap": rec["heap"],
          "w": w if w is not None else rec.get("w", []), "es": es if es is not None else rec.get("es", [])}
     c.update({k: o[k] for k in ("out", "cands", "det", "flag", "count", "visited", "ticks", "shape")})
+    c["tl"] = o.get("tl", [])
     return c
 
 
